@@ -244,6 +244,25 @@ def worker(task):
     return t.export()
 
 
+def big_worker(task):
+    """larger label ranges: parent sets mixing indices below and above 8 (python's small-int set order is not sorted there)"""
+    t = C.Tally(HARNESS, CHECKS)
+    which, hseed = task
+    rng = random.Random("c02big-%d-%d" % (which, hseed))
+    p = 10
+    parent_sets = [{9: [3, 8], 8: [1], 3: [0]}, {9: [1, 8], 5: [0, 8], 8: [2]}, {9: [0, 3, 8], 7: [1, 8], 8: [3]}, {6: [1, 9], 9: [0, 8], 8: [0]}][which % 4]
+    A = np.zeros((p, p))
+    for ch, pars in parent_sets.items():
+        for q in pars:
+            A[q, ch] = rng.choice((1.0, -2.0, 0.5))
+    for rep in range(6):
+        kinds = [rng.choice(KINDS) for _ in range(p)]
+        for fset in range(min(N_FSETS, 3)):
+            t.check(F_SAMPLE, A=A if rep % 2 else (A != 0).astype(int), kinds=kinds, n=5, fset=fset, seed=hseed)
+        t.mark((p, which, rep))
+    return t.export()
+
+
 def init_worker(task):
     t = C.Tally(HARNESS, CHECKS)
     p, lo, hi, hseed = task
@@ -296,12 +315,15 @@ def run(tier, seed):
         itasks += [(4, i, i + 1, seed) for i in sorted(r.sample(range(1 << 16), 4000))]
     C.run_pool(init_worker, itasks, t2)
     tally.merge(t2.export())
+    t3 = C.Tally(HARNESS, CHECKS)
+    C.run_pool(big_worker, [(w, seed) for w in range(8 if thorough else 4)], t3)
+    tally.merge(t3.export())
     rule = ("every DAG on p<=%s as 0/1 int matrix and as signed float weights whose multi-parent columns sum to zero x every assignment of "
             "%s to the nodes (%s) x n in %s x %d families of non-linear assignment callables that are not symmetric in their arguments "
             "(returning (n,), (n,1) or a scalar; None / functions.null for parentless nodes), recording noise callables; in ~30%% of the cases "
             "the caller's A, assignment list and noise list are overwritten after construction. Each column is recomputed from the logged draws "
             "by recursion over the oracle's own parent sets (rtol=atol=1e-10) and the arguments received by the assignment callables are "
-            "compared with the returned parent columns; result shape (n,p). constructor: every 0/1 matrix with diagonal on p<=3%s x "
+            "compared with the returned parent columns; result shape (n,p); plus fixed 10-node graphs whose parent sets mix indices below and above 8. constructor: every 0/1 matrix with diagonal on p<=3%s x "
             "{0/1, antisymmetric +-1, signed}: ValueError iff the oracle finds a cycle, A copied. non-trivial = (p, DAG, matrix kind, family, assignment)"
             % ("4", list(KINDS), "all 6^p for p<=4; at p=4 matrix kind and callable family rotate with the assignment" if thorough else "all 6^p for p<=3 with both matrix kinds and every listed family, 12 sampled per DAG for p=4", list(NS), len(fsets),
                " and 4000 sampled p=4" if thorough else ""))
